@@ -106,7 +106,7 @@ def main():
     run.sample({"stream": "slice", "case": [0, 0, None, 3], "model": drv.ask(sx("c18.slice_py", 0, 0, None, 3))})
 
     # 3b. keys
-    atoms = ["a", "b", 1, ()]
+    atoms = ["a", "obs", 1, ()]  # a multi-character name: splicing a str character by character must show
     if run.tier == "thorough":
         keys = gen_keys(2, 3, atoms)
         deep = gen_keys(2, 2, atoms)
